@@ -127,9 +127,18 @@ def run(F, R, ctx):
            any(re.search(r"::upgrade$", b["callee"]) for _, b in lib.deep_calls(F, cm)),
            "Continuation::close_marks no longer upgrades the frame's weak mark and closes it", cm.loc(), sample=True)
     ccm = F.one(r"^steel::steel_vm::vm::\{impl VmCore\}::close_continuation_marks$")
+    cl = ccm.call_blocks(r"\{impl Continuation\}::close_marks$", wrappers=True)
     R.inst("C08.a", "VmCore::close_continuation_marks delegates to Continuation::close_marks",
-           bool(ccm.call_blocks(r"\{impl Continuation\}::close_marks$", wrappers=True)),
+           bool(cl),
            "VmCore::close_continuation_marks is a no-op", ccm.loc(), sample=True)
+    # … on every path: the only thing that may skip a close is the absence of a mark (decided inside close_marks, C08.d);
+    # no state of the VM (nesting depth, mode flags) may veto it
+    skip = [r for r in ccm.returns() if r in ccm.reachable_from([0], avoid=set(cl))] if cl else []
+    R.inst("C08.a", "VmCore::close_continuation_marks closes on every path", bool(cl) and not skip,
+           "VmCore::close_continuation_marks can return without calling Continuation::close_marks (a condition on the VM's "
+           "state — nesting depth, a mode flag — vetoes the close): a frame that goes out of scope in that state keeps an "
+           "open mark, and a continuation captured there panics the host when it is re-entered after the frame is gone "
+           "(\"Failed to find an open continuation on the stack\")", ccm.loc(), sample=True)
 
     # ---- b
     mt = F.one(r"^steel::steel_vm::vm::\{impl VmCore\}::make_thread$")
